@@ -322,6 +322,8 @@ func whyKind(why string) string {
 		return "raw-length-mismatch"
 	case strings.HasPrefix(why, "data_type"):
 		return "unsupported-data_type"
+	case strings.HasPrefix(why, "shape declares more than"):
+		return "astronomic-extents"
 	}
 	return "other"
 }
@@ -533,12 +535,43 @@ func Check12(c *Case, env *Env) []verdict {
 			out = append(out, *v)
 			break
 		}
+		// the same stored tensor decoded again (what Constant nodes do on every Run) must give the same value
+		var again tensor.Tensor
+		if o2 := guard(func() (err error) { again, err = onnx.TensorFromProto(e.tp); return }); o2.kind != "ok" {
+			out = append(out, verdict{sig: fmt.Sprintf("second-decode-%s:%s:%s", o2.kind, e.v.DT, tensorEnc(e.tp)), what: fmt.Sprintf("weight %q decoded a second time from the same TensorProto: %s %v %s", name, o2.kind, o2.err, o2.pmsg)})
+			break
+		} else if v := compareWeight(name, e.tp, e.v, again); v != nil {
+			v.sig = "second-decode-" + v.sig
+			out = append(out, *v)
+			break
+		}
 		if st != nil {
 			st.Probe("weight_exact")
 		}
 	}
 	if len(out) > 0 {
 		return out
+	}
+	// Whatever a stored tensor declares, it declares one thing: decoding the same TensorProto twice must give the
+	// same answer, also where ONNX leaves the meaning open (e.g. raw bool bytes other than 0/1).
+	for _, name := range order {
+		e := byName[name]
+		if e.cl != refdec.Unspecified {
+			continue
+		}
+		var t1, t2 tensor.Tensor
+		o1 := guard(func() (err error) { t1, err = onnx.TensorFromProto(e.tp); return })
+		o2 := guard(func() (err error) { t2, err = onnx.TensorFromProto(e.tp); return })
+		if o1.kind == "panic" || o2.kind == "panic" {
+			continue // reported by the load path / C18
+		}
+		if o1.kind != o2.kind || (o1.kind == "ok" && !val.Equal(val.Snap(t1), val.Snap(t2))) {
+			return []verdict{{sig: fmt.Sprintf("decode-not-repeatable:%s:%s", val.DT(e.tp.GetDataType()), tensorEnc(e.tp)),
+				what: fmt.Sprintf("initializer %q decoded twice from the same TensorProto: first %s %s, then %s %s", name, o1.kind, val.Snap(t1), o2.kind, val.Snap(t2))}}
+		}
+		if st != nil {
+			st.Probe("unspecified_decode_repeatable")
+		}
 	}
 	// observe through Run as well when the graph needs no caller input
 	out = append(out, runObservation(mp, m, byNameToVals(byName), st)...)
